@@ -29,8 +29,16 @@ PLANS = {
         "quick": {"runs": 400, "fault_runs": 80, "wall_s": 70, "per_task_s": 180},
         "thorough": {"runs": 30000, "fault_runs": 6000, "wall_s": 900, "per_task_s": 300},
     }),
+    "C18": ("hyper", {
+        "quick": {"runs": 160, "fault_runs": 40, "wall_s": 75, "per_task_s": 240},
+        "thorough": {"runs": 12000, "fault_runs": 3000, "wall_s": 900, "per_task_s": 400},
+    }),
     "C19": ("mat", {
         "quick": {"runs": 600, "fault_runs": 100, "wall_s": 70, "per_task_s": 120},
         "thorough": {"runs": 60000, "fault_runs": 10000, "wall_s": 900, "per_task_s": 300},
+    }),
+    "C20": ("mpi", {
+        "quick": {"runs": 200, "fault_runs": 60, "wall_s": 75, "per_task_s": 240},
+        "thorough": {"runs": 15000, "fault_runs": 4000, "wall_s": 900, "per_task_s": 400},
     }),
 }
